@@ -102,6 +102,8 @@ def command_of(s, by_out):
         parts.append("po=" + ";".join("%s:%s" % (o, ",".join(rs)) for o, rs in sorted(s.per_out_reads.items())).encode("latin-1").hex())
     if getattr(s, "dep_all_outs", False):
         parts.append("dall=1")
+    if getattr(s, "dep_mp", False):
+        parts.append("dmp=1")
     if getattr(s, "dep_spell", None):
         parts.append("dsp=" + ";".join("%s=%s" % kv for kv in sorted(s.dep_spell.items())).encode("latin-1").hex())
     if s.rsp:
